@@ -29,6 +29,16 @@ Streams (all choices from the run's PRNG):
   free    grammars drawn directly from the productions of the grammar language
           with names from small pools (weird but mostly parseable)
 
+Process state (the property says "any grammar text": in whatever state the process is): before a case the
+module-level state of textX / Arpeggio (cached grammar parser `lang.textX_parsers`, `registration.languages` /
+`metamodels`, the lazily built meta-models of registered languages, the `re` cache) is put back to "just imported";
+30 % of the cases carry a `history` of 1-3 earlier calls of metamodel_from_str (the same text, a valid grammar that
+loads a registered language, texts of every stream, texts the parser refuses, the same text with flipped options); every
+call of the history is judged by the oracle, the last one additionally by the model - whose answer does not depend on
+the history.  The model's inputs (parse tree, table of registered languages) are computed *after* the observation, so the
+harness' own look at a language never builds it before textX needs it.  `reference` statements name the languages the
+environment really registers (textX, questionnaire) with the namespace the grammar then uses (mutation `reflang`).
+
 Lean side: the text is parsed with the grammar parser of the tree under test
 (`ParserPython(lang.textx_model)`); the parse tree is converted into the typed
 tree of `GramLoad.Grammar` (shape violations are reported, never patched) and
@@ -1590,7 +1600,11 @@ class Prop(Check):
             "(valid or with one of 16 flaws, repetition bounds of every magnitude up to 10**30, nesting beyond the interpreter "
             "stack) in every place a regex match can stand, generated string escapes, bad rule parameters and modifiers, bool "
             "assignments, `parent`, links, reference statements, reserved names, import, `#`, base-type names, nesting, Comment rule as a rule reference), "
-            "token-level mutations, and grammars drawn from the productions of the grammar language; non-trivial = the text "
+            "token-level mutations, and grammars drawn from the productions of the grammar language; `reference` statements to the "
+            "languages registered in the environment (textX, questionnaire: meta-model built on demand during the second pass) "
+            "with qualified names in the declared namespace; process state: each case starts from freshly imported textX, 30 % "
+            "after a generated history of 1-3 earlier metamodel_from_str calls (same text, language-loading grammar, any stream, "
+            "parser-refused text, flipped options), every call judged; non-trivial = the text "
             "gets past the grammar parser and the visitor or the second pass reports an error (an error path inside "
             "lang.py / metamodel.py is exercised)")
     MODELLED = ("hand-modelled: TextXVisitor first pass (rule names, rule params, string / regex matches, obj refs, assignments, "
@@ -1607,6 +1621,9 @@ class Prop(Check):
         "codecs.decode only ValueError subclasses; Python warnings are not turned into errors; the subclass table the "
         "handler specs use (PyExc.isa, C23_handlers_spec) is compared with issubclass of the running interpreter on every run",
         "metamodel_from_str is called with a str and no file_name, classes, or debug",
+        "process state beyond the module-level / class-level plain attributes of the textx and arpeggio modules, functools "
+        "caches and the re cache (what reset_process_state restores) does not influence metamodel_from_str; histories are "
+        "sequences of metamodel_from_str calls only (no models parsed, no registrations changed by the user)",
         "CPython recursion limit is not reached (nesting depth of generated grammars <= 40; deeper: known finding KF-C23-1; "
         "chains of rule references of generated grammars <= 20 rules; some hundred: known finding KF-C23-2)",
     ]
